@@ -290,9 +290,12 @@ func runPlan(pl Plan) (res vfx.Result) {
 	if m.Kind == "bitflip" || m.Kind == "setbyte" {
 		res.Labels = append(res.Labels, "field:"+m.Field)
 	}
-	if known != "" && vfx.IsKnown(known) {
+	if known != "" && vfx.IsKnown(known) && inherentVersionFlip(g.Plain, vsn) {
 		res.Known = known
 		return res
+	}
+	if known != "" {
+		res.Labels = append(res.Labels, "version-flip-not-inherent")
 	}
 	oMod, err := deliver(pl, mod, g.Stream, prep)
 	if err != nil {
@@ -324,6 +327,31 @@ func runPlan(pl Plan) (res vfx.Result) {
 		return fail("%s (%s, label %q, encryption version %d): outcome is neither 'dropped' nor 'exactly the genuine message':\n  modified: %s\n  genuine:  %s\n  nothing:  %s", g.Name, desc, pl.Label, vsn, oMod.Key(), oGen.Key(), nothingKey)
 	}
 	return res
+}
+
+// inherentVersionFlip says whether rewriting the version byte of a genuine
+// message falls into the listed known finding C14-version-byte: 0->1 always
+// does (the sender's pad bytes are appended); 1->0 only when the plaintext is
+// a whole number of blocks ending in well-formed PKCS7 padding. Every other
+// 1->0 rewrite must be dropped and is checked like any other modification.
+func inherentVersionFlip(plain []byte, genuineVsn byte) bool {
+	if genuineVsn == 0 {
+		return true
+	}
+	n := len(plain)
+	if n == 0 || n%16 != 0 {
+		return false
+	}
+	pad := int(plain[n-1])
+	if pad < 1 || pad > 16 {
+		return false
+	}
+	for _, b := range plain[n-pad:] {
+		if int(b) != pad {
+			return false
+		}
+	}
+	return true
 }
 
 func fieldAt(l layout, i int) string {
@@ -470,7 +498,7 @@ func TestBitSweep(t *testing.T) {
 					if idx%n != k {
 						continue
 					}
-					pl := Plan{Seed: 1, Label: label, PV: pv, G: gi, Mod: Mod{Kind: "bitflip", Field: "any", Pos: (bit / 8 * 1000 + 999) / len(sealed), Bit: bit % 8}}
+					pl := Plan{Seed: 1, Label: label, PV: pv, G: gi, Mod: Mod{Kind: "bitflip", Field: "any", Pos: (bit/8*1000 + 999) / len(sealed), Bit: bit % 8}}
 					// address the byte exactly: Pos is per-mille, so verify the mapping
 					if pl.Mod.Pos*len(sealed)/1000 != bit/8 {
 						pl.Mod.Pos = bit / 8 * 1000 / len(sealed)
